@@ -773,8 +773,10 @@ class SourceHandler:
                 return
             self._params.positive_ack_params.ack_timer.reset()
             self._params.positive_ack_params.ack_counter += 1
+            # Re-send the same EOF PDU: its file size field is the progress, which also is the whole
+            # file size unless the transaction was cancelled.
             self._prepare_eof_pdu(
-                self._checksum_calculation(self._params.fp.file_size),
+                self._checksum_calculation(self._params.fp.progress),
             )
 
     def _handle_wait_for_finish(self, packet_holder: PduHolder) -> None:
